@@ -2186,7 +2186,67 @@ func init() {
 		// reply of each (and adopts five reply proxies: more than the four the periodic session check lets a connection keep);
 		// the session check (SLock.checkServerProtocolSession, the 120 s sweep — semantically neutral: trimmed proxies fall back to
 		// the routing by client id) runs; the sixth connection closes, a seventh announces the id and must receive the second replies
-		func(x *vConnRun) { x.manyProxies() })
+		func(x *vConnRun) { x.manyProxies() },
+		// 14 / 15: a queued request (14) resp. a hold (15) taken with the KEEP-ALIVE flag lives as long as its connection does; once
+		// the connection has ended the request must still end with its timeout, the hold with its expiry (binary connection)
+		func(x *vConnRun) { x.keepAliveAfterClose(false) },
+		func(x *vConnRun) { x.keepAliveAfterClose(true) })
+}
+
+// keepAliveAfterClose: see corpus cases 14 / 15. The keep-alive request is sent raw (it is not an event of the model: while its
+// connection lives it answers nothing, after the close its reply is dropped), the engine is read directly.
+func (x *vConnRun) keepAliveAfterClose(hold bool) {
+	o := x.open('b', false)
+	c := x.open('b', false)
+	key := x.newKey()
+	lockId := 7700000 + key
+	cmd := &protocol.LockCommand{Command: protocol.Command{Magic: protocol.MAGIC, Version: protocol.VERSION, CommandType: protocol.COMMAND_LOCK, RequestId: vId16(lockId)},
+		LockId: vId16(lockId), LockKey: vId16(key), Timeout: 2, Expried: 2}
+	if hold {
+		cmd.ExpriedFlag = protocol.EXPRIED_FLAG_KEEPLIVED
+	} else {
+		h := x.request(o, 'L', key, 0, 0, 90)
+		x.toks[h].long, x.toks[h].pin = true, true
+		cmd.TimeoutFlag = protocol.TIMEOUT_FLAG_KEEPLIVED
+	}
+	b := make([]byte, 64)
+	_ = cmd.Encode(b)
+	_ = c.write(b)
+	there := func() bool {
+		sc := x.scan()
+		if hold {
+			return sc.holds[lockId] > 0
+		}
+		return sc.waits[lockId] > 0
+	}
+	if !vConnWait(there, 3*time.Second) {
+		x.out.stat("keepalive-case-not-established")
+		return
+	}
+	if hold {
+		// the grant reply of the raw request: consumed here, it answers no token of the script
+		c.waitFrame(func(f *vConnFrame) bool { return f.kind == 'L' && f.tok == lockId }, 2*time.Second)
+	}
+	for i := 0; i < 5 && x.dead == ""; i++ {
+		x.tick()
+	}
+	if there() {
+		x.out.stat("keepalive-kept-while-connection-lives")
+	} else {
+		x.out.stat("keepalive-ended-while-connection-lives")
+	}
+	x.close(c, 'c')
+	for i := 0; i < 8 && x.dead == ""; i++ {
+		x.tick()
+	}
+	if x.dead == "" && there() {
+		if hold {
+			x.report("C18:hold-never-expires-after-close:keepalive", fmt.Sprintf("a hold taken with the keep-alive expiry flag (LockId %d, key %d, expiry 2 s) by a connection that has ended is still held 8 s after the close: it is re-armed forever", lockId, key))
+		} else {
+			x.report("C18:queued-request-never-ends:keepalive", fmt.Sprintf("a request queued with the keep-alive timeout flag (LockId %d, key %d, timeout 2 s) by a connection that has ended is still queued 8 s after the close: it is re-armed forever", lockId, key))
+		}
+	}
+	x.out.stat("keepalive-after-close")
 }
 
 // manyProxies: see corpus case 13. The session check is not an event of the model: on the unchanged code it changes nothing a client
